@@ -319,6 +319,18 @@ func vC04Relay() {
 		c.Fail = "call-context-does-not-carry-the-requested-key"
 		info["outcome"] = "FromContext(NewCallContext(ctx with A, B)) is not B"
 	}
+	// deriving a call context leaves the context it was derived from alone: the handler still sees the peer it serves,
+	// and a second call context derived from it (for A) does not change the first
+	if p, ok := peer.FromContext(handlerCtx); c.Fail == "" && (!ok || p.PublicKey != keyA) {
+		c.Fail = "deriving-a-call-context-changed-the-handlers-peer"
+		info["outcome"] = "after NewCallContext(handler ctx of A, B) the handler's own context no longer says A"
+	}
+	callCtxA := peer.NewCallContext(handlerCtx, keyA)
+	if p, ok := peer.FromContext(callCtx); c.Fail == "" && (!ok || p.PublicKey != keyB) {
+		c.Fail = "call-contexts-derived-from-one-parent-share-their-peer"
+		info["outcome"] = "a second NewCallContext on the same parent changed the key of the first"
+	}
+	_ = callCtxA
 	var mu sync.Mutex
 	got := map[string]int{}
 	answer := func(name string, tr *vParkTr) func([]byte) {
